@@ -1,7 +1,17 @@
+//go:build c17
+
 package main
 
-import "wrverif/c17"
+import (
+	"path/filepath"
+
+	"wrverif/c17"
+	"wrverif/facts"
+)
 
 func init() {
+	facts.Tables = append(facts.Tables, facts.Table{File: "Matrix.lean", Gen: func(repo string) (string, error) {
+		return facts.MatrixLean(filepath.Join(repo, "matrix", "matrix.go"))
+	}})
 	runners["C17"] = func(c *Ctx) error { return c17.Run(c.Tier, c.Seed, c.ModelPath, c.Repo, c.R) }
 }
